@@ -236,7 +236,7 @@ class RRELNavigation(RRELBase):
 
         for start_obj in start:
             res, res_lookup_list, res_lookup_path = lookup(start_obj)
-            if res:
+            if res is not None:
                 return res, res_lookup_list, res_lookup_path
 
         return None, lookup_list, matched_path
